@@ -893,6 +893,9 @@ class InterpCore:
                 return o.attrs[name]
             if name == "__class__":
                 return o.cls
+            if isinstance(o.cls, LibClass) and o.cls.name in ("struct.Struct", "sys.float_info"):
+                # a partially modelled library object: what is not modelled is a limit, never an AttributeError of the program
+                self.limit(f"attribute {name!r} of a {o.cls.name} object is not modelled", node)
             v = self.class_lookup(o.cls, name)
             if v is not None:
                 return self.bind_descr(v, o, o.cls)
@@ -900,6 +903,8 @@ class InterpCore:
                 return LibFn.get("noop")
             if "_base_value_" in o.attrs:
                 return self.getattr_(o.attrs["_base_value_"], name, run, node)
+            if isinstance(o.cls, LibClass) and not any(c.name == "BaseException" for c in o.cls.mro):
+                self.limit(f"attribute {name!r} of a library object ({o.cls.name}) is not modelled", node)
             self.throw("AttributeError", f"{o.cls.name!r} object has no attribute {name!r}", node)
         if isinstance(o, ClassV):
             return self.class_getattr(o, name, run, node)
